@@ -12,6 +12,8 @@ CONSTANTS
     MaxFault = 1
     MaxGzWrites = 2
     Ticks = FALSE
+    Fatal = FALSE
+    FlushOnFatal = TRUE
 INVARIANT TypeOK
 INVARIANT ReadBackIsHistory
 INVARIANT CountBound
@@ -25,6 +27,7 @@ INVARIANT DaysApart
 INVARIANT NameCarriesDay
 INVARIANT FlushedRecoverable
 INVARIANT NoDuplicates
+INVARIANT FatalDurableInv
 PROPERTY OrigRemovedOnlyAfterGzClosed
 PROPERTY NamesNeverReused
 CHECK_DEADLOCK FALSE
